@@ -29,7 +29,7 @@ class Effect:
 
     @property
     def key(self):
-        return (self.op, self.root, self.field, self.origin, self.text)
+        return (self.op, self.root, self.field, self.origin, self.text, self.guards)
 
     def describe(self) -> str:
         via = (" via " + " -> ".join(self.chain)) if self.chain else ""
@@ -138,6 +138,11 @@ class Effects:
                   and n.args and isinstance(n.args[0], ast.Name) and n.args[0].id in params):
                 what = f"{norm(n)} raises ValueError if absent"
             if what:
+                if f.parent is None and f.cls is None and f.name.startswith("_"):
+                    # private module-level helper: a failing search for the caller's own
+                    # `self` is an internal belief, not argument validation
+                    for p in f.param_names():
+                        gs.add((p, frozenset({"NOTSELF"})))
                 out.append((Effect("refuse", "-", what, f.site, getattr(n, "lineno", 0), norm(n), frozenset(gs)), n))
         return out
 
